@@ -241,12 +241,66 @@ def run(prog, ctx=None):
             res.ob(tag + ":zero-pair-codes", ok, df_, df_.line,
                    "" if ok else ("zero pair code %s: decoder reads (data %s, zeros %s), encoder means %s" % bad[0] if bad else "zero pair codes overlap block codes"),
                    {"offset": Koff, "range": [A + 1, L - 1]})
+            # the format itself (COBS/ZPE: every code above the block limit is <code - (E+1)> data bytes and a zero pair):
+            # frames of another sender use the codes this encoder never emits
+            bad = []
+            for cc in range(E + 1, 256):
+                d, z = table[cc]
+                if not (d.is_const() and d.lo == cc - (E + 1) and z.is_const() and z.lo == 2):
+                    bad.append((cc, d, z, (cc - (E + 1), 2)))
+            ok = not bad
+            res.ob(tag + ":pair-codes-format", ok, df_, df_.line,
+                   "" if ok else "pair code %s: decoder reads (data %s, zeros %s), the format says %s" % bad[0], {"codes_checked": 255 - E})
         else:
             # a decoder with pair codes needs an encoder that can emit them and vice versa: codes above E decode as plain blocks or not at all
             pairs = [c for c in range(E + 1, 256) if table[c][1].is_const() and table[c][1].lo >= 2]
             ok = not pairs
             res.ob(tag + ":no-pair-codes", ok, df_, df_.line, "" if ok else "decoder expands codes %s.. to zero pairs, the encoder never emits them" % pairs[0])
         res.count("regular_pairs")
+
+    # tail-inline wrappers: the byte they move into the code position is a block code of the wrapped codec (the decoder
+    # would read anything above the block limit as a pair code)
+    from .rules_path import null_partitioned
+    for K, (ke, re_, kd, rd) in sorted(kinds.items()):
+        if ke != "inline":
+            continue
+        w = unwrap(prog, enc[K][0])
+        E, zpe = encoder_params(re_)
+        if E is None:
+            continue
+        # locals that hold a byte read back from the frame (the last data byte that may take the code's place)
+        frame_bytes = set()
+        for b_, i, n in w.walk_all():
+            if n.get("k") == "bin" and n.get("op") == "=":
+                l = strip(n["a"], lvalue_to_rvalue=False)
+                r = strip(n["b"], all_casts=True)
+                if l.get("k") == "ref" and "id" in l["d"] and (r.get("k") == "idx" or (r.get("k") == "un" and r.get("op") == "*")):
+                    frame_bytes.add(l["d"]["id"])
+        sites = []
+        for b_, i, e in w.elements():
+            for n in walk(e):
+                if n.get("k") == "bin" and n.get("op") == "=":
+                    l = strip(n["a"], lvalue_to_rvalue=False)
+                    r = strip(n["b"], all_casts=True)
+                    if l.get("k") in ("un", "idx") and (l.get("k") != "un" or l.get("op") == "*") and w.T(l.get("t")).get("sz") == 1 \
+                            and r.get("k") == "ref" and r["d"].get("id") in frame_bytes:
+                        sites.append((b_, i, n))
+        if not sites:
+            continue
+        an = null_partitioned(prog, w)
+        for b_, i, n in sites:
+            v = None
+            el = w.blocks[b_.id].el[i]
+            for st in an.pre_parts.get((b_.id, i), {}).values():
+                x = an.ev(n["b"], dict(st), True, el)
+                v = x if v is None else AV(min(v.lo, x.lo), max(v.hi, x.hi), v.nan or x.nan)
+            if v is None:
+                continue
+            ok = v.hi <= E and v.lo >= 1
+            res.ob("id %s:%s:inline-code %s" % (K, w.qn, norm(show(n, w))[:40]), ok, w, n.get("l", w.line),
+                   "" if ok else "tail-inline wrapper %s stores a byte in [%s, %s] as block code; the wrapped codec's block codes are 1..%d (higher values are read as pair codes or do not exist)" % (w.qn, v.lo, v.hi, E),
+                   {"value": [v.lo, v.hi], "block_limit": E})
+            res.count("inline_code_stores")
 
     # python client
     repo = (ctx or {}).get("repo", "/repo")
